@@ -76,7 +76,7 @@ enum FaultyFile {
     Lexical(String),
     Syntax(String),
     /// (chunks of the faulty unit, index of the faulty declaration chunk, fault kind, declared name)
-    Semantic(Vec<String>, usize, FaultKind, Option<String>, LibraryElementKind),
+    Semantic(Vec<String>, usize, FaultKind, Option<String>, LibraryElementKind, Option<String>, String),
 }
 
 fn decl_name(e: &LibraryElementKind) -> Option<String> {
@@ -142,7 +142,7 @@ fn check_tape(tape: &[u8], gates: &Gates, stats: &mut Stats, counting: bool, cli
     let nk = choice.below(5);
     let mut companions: Vec<String> = vec![];
     let mut small = Profile::default();
-    small.max_types = 2;
+    small.max_types = 3;
     small.max_fbs = 2;
     small.max_funcs = 1;
     small.max_progs = 1;
@@ -216,13 +216,15 @@ fn check_tape(tape: &[u8], gates: &Gates, stats: &mut Stats, counting: bool, cli
             if kinds.is_empty() {
                 FaultyFile::Lexical("?\n".into())
             } else {
-                let k = kinds[choice.below(kinds.len())];
+                // (a quarter of the time the enumeration-value fault, when the unit has a site for it: its
+                // "value of another enumeration" shape is the one a companion file could wrongly cure)
+                let k = if kinds.contains(&FaultKind::EnumInitNotMember) && choice.ratio(1, 4) { FaultKind::EnumInitNotMember } else { kinds[choice.below(kinds.len())] };
                 let s = choice.below(base.sites[k.index()]);
                 let mut ft2 = Tape::new(&ftape);
                 let fu = gen_unit_with(&mut ft2, gates, &fp, Some((k, s)));
                 let pl = fu.planted.clone().unwrap();
                 let elem = fu.lib.elements[pl.decl_index].clone();
-                FaultyFile::Semantic(chunks_of(&fu.lib, gates), pl.decl_index, k, decl_name(&elem), elem)
+                FaultyFile::Semantic(chunks_of(&fu.lib, gates), pl.decl_index, k, decl_name(&elem), elem, pl.marker.clone(), pl.site_class.clone())
             }
         }
     };
@@ -230,7 +232,26 @@ fn check_tape(tape: &[u8], gates: &Gates, stats: &mut Stats, counting: bool, cli
     let (ftext, fclass, code, same_name): (String, &str, Option<&'static str>, Option<String>) = match &faulty {
         FaultyFile::Lexical(s) => (s.clone(), "lexical", None, None),
         FaultyFile::Syntax(s) => (s.clone(), "syntax", None, None),
-        FaultyFile::Semantic(chunks, idx, kind, name, elem) => {
+        FaultyFile::Semantic(chunks, idx, kind, name, elem, marker, site_class) if site_class.ends_with(".value-of-other-enumeration") && marker.is_some() && choice.flag() => {
+            // the value belongs to ANOTHER enumeration: that enumeration's declaration is moved out of
+            // the faulty file into a file of its own.  Alone the faulty file fails (value not in the
+            // variable's enumeration); adding the file that declares the other enumeration must not
+            // make the value acceptable
+            let m = marker.clone().unwrap().to_ascii_lowercase();
+            let other = (0..chunks.len()).find(|&c| c != *idx && chunks[c].starts_with("TYPE") && chunks[c].to_ascii_lowercase().split(|ch: char| !(ch.is_ascii_alphanumeric() || ch == '_')).any(|w| w == m));
+            let _ = (name, elem);
+            match other {
+                Some(o) => {
+                    let text: String = (0..chunks.len()).filter(|&c| c != o).map(|c| chunks[c].clone()).collect();
+                    if counting {
+                        stats.class("set.semantic.other-enumeration-in-its-own-file");
+                    }
+                    (text, "semantic", Some(kind.code()), Some(chunks[o].clone()))
+                }
+                None => (chunks.concat(), "semantic", Some(kind.code()), None),
+            }
+        }
+        FaultyFile::Semantic(chunks, idx, kind, name, elem, _, _) => {
             // position of the faulty declaration inside its file: rotate the chunks
             let mut order: Vec<usize> = (0..chunks.len()).collect();
             let rot = choice.below(chunks.len().max(1));
@@ -354,6 +375,56 @@ fn check_tape(tape: &[u8], gates: &Gates, stats: &mut Stats, counting: bool, cli
     Ok(())
 }
 
+/// "Wrong cure" grid (deterministic): a faulty file whose fault names something that does not exist
+/// in the way it is used, plus a valid companion that declares that name in a way that must NOT
+/// cure the fault (another enumeration, another scope, another configuration).  The faulty file
+/// alone fails with the code; the set must fail with that code in every file order and as one file.
+fn cure_grid() -> Vec<(&'static str, &'static str, String, String)> {
+    let fb_level = "TYPE\ncg_level : (cg_info, cg_warn);\nEND_TYPE\n";
+    vec![
+        ("prefixed value of another enumeration", "P0014", format!("{}FUNCTION_BLOCK cg_user\nVAR\ncg_x : cg_level := cg_color#cg_red;\nEND_VAR\nEND_FUNCTION_BLOCK\n", fb_level), "TYPE\ncg_color : (cg_red, cg_green);\nEND_TYPE\n".to_string()),
+        ("value of another enumeration", "P0014", format!("{}FUNCTION_BLOCK cg_user\nVAR\ncg_x : cg_level := cg_red;\nEND_VAR\nEND_FUNCTION_BLOCK\n", fb_level), "TYPE\ncg_color : (cg_red, cg_green);\nEND_TYPE\n".to_string()),
+        ("value of another enumeration in a structure element", "P0014", format!("{}TYPE\ncg_s : STRUCT\ncg_e : cg_level := cg_red;\nEND_STRUCT;\nEND_TYPE\n", fb_level), "TYPE\ncg_color : (cg_red, cg_green);\nEND_TYPE\n".to_string()),
+        ("variable of another function block", "P0015", "FUNCTION_BLOCK cg_user\nVAR\ncg_y : INT;\nEND_VAR\ncg_y := cg_other;\nEND_FUNCTION_BLOCK\n".to_string(), "FUNCTION_BLOCK cg_owner\nVAR\ncg_other : INT;\nEND_VAR\ncg_other := 1;\nEND_FUNCTION_BLOCK\n".to_string()),
+        ("global variable without VAR_EXTERNAL", "P0015", "PROGRAM cg_user\nVAR\ncg_y : INT;\nEND_VAR\ncg_y := cg_glob;\nEND_PROGRAM\n".to_string(), "CONFIGURATION cg_conf\nVAR_GLOBAL\ncg_glob : INT := 1;\nEND_VAR\nRESOURCE cg_res ON cg_cpu\nPROGRAM cg_inst : cg_user;\nEND_RESOURCE\nEND_CONFIGURATION\n".to_string()),
+        ("instance of another program", "P0021", "FUNCTION_BLOCK cg_timer\nVAR_INPUT\ncg_in : INT;\nEND_VAR\nEND_FUNCTION_BLOCK\nPROGRAM cg_user\nVAR\ncg_y : INT;\nEND_VAR\ncg_tmr(cg_in := 1);\nEND_PROGRAM\n".to_string(), "PROGRAM cg_owner\nVAR\ncg_tmr : cg_timer;\nEND_VAR\ncg_tmr(cg_in := 2);\nEND_PROGRAM\n".to_string()),
+        ("instance taken by reference in a function", "P0021", "FUNCTION_BLOCK cg_timer\nVAR_INPUT\ncg_in : INT;\nEND_VAR\nEND_FUNCTION_BLOCK\nPROGRAM cg_user\nVAR\ncg_y : INT;\nEND_VAR\ncg_tmr(cg_in := 1);\nEND_PROGRAM\n".to_string(), "FUNCTION cg_owner : INT\nVAR_IN_OUT\ncg_tmr : cg_timer;\nEND_VAR\ncg_tmr(cg_in := 2);\ncg_owner := 1;\nEND_FUNCTION\n".to_string()),
+        ("task of another configuration", "P0011", "PROGRAM cg_prog\nVAR\ncg_y : INT;\nEND_VAR\ncg_y := 1;\nEND_PROGRAM\nCONFIGURATION cg_conf\nRESOURCE cg_res ON cg_cpu\nPROGRAM cg_inst WITH cg_fast : cg_prog;\nEND_RESOURCE\nEND_CONFIGURATION\n".to_string(), "CONFIGURATION cg_conf2\nRESOURCE cg_res2 ON cg_cpu\nTASK cg_fast(INTERVAL := T#10ms, PRIORITY := 1);\nPROGRAM cg_inst2 WITH cg_fast : cg_prog;\nEND_RESOURCE\nEND_CONFIGURATION\n".to_string()),
+        ("constant initialised elsewhere", "P0016", "FUNCTION_BLOCK cg_user\nVAR CONSTANT\ncg_k : INT;\nEND_VAR\nEND_FUNCTION_BLOCK\n".to_string(), "FUNCTION_BLOCK cg_owner\nVAR CONSTANT\ncg_k : INT := 5;\nEND_VAR\nEND_FUNCTION_BLOCK\n".to_string()),
+        ("unknown type that is a function block elsewhere", "P0022", "FUNCTION_BLOCK cg_user\nVAR\ncg_v : cg_missing;\nEND_VAR\nEND_FUNCTION_BLOCK\n".to_string(), "FUNCTION_BLOCK cg_owner\nVAR\ncg_missing : INT;\nEND_VAR\nEND_FUNCTION_BLOCK\n".to_string()),
+    ]
+}
+
+fn run_cure_grid(rep: &mut Report) {
+    let cells = cure_grid();
+    let n = cells.len();
+    let out = run_items(&cells, 4, |(name, code, faulty, companion), stats| {
+        let fail = |kind: &str, detail: String, files: Vec<String>| Failure::new("cure-grid", kind, format!("{}: {}", name, detail), json!({"files": files, "kind": "cure-grid", "code": code}));
+        // precondition: the faulty file alone fails with the code, the companion alone is accepted
+        let alone = project_verdict(&[faulty.clone()]).map_err(|(k, d)| fail(&k, d, vec![faulty.clone()]))?;
+        let comp = project_verdict(&[companion.clone()]).map_err(|(k, d)| fail(&k, d, vec![companion.clone()]))?;
+        if alone.0 || !alone.1.iter().any(|c| c == code) || !(comp.0 || comp.1.iter().all(|c| c == "P9999")) {
+            stats.case(false, hash_str(name));
+            stats.class("cure-grid.precondition-not-met(skipped)");
+            return Ok(());
+        }
+        let sets: Vec<Vec<String>> = vec![vec![faulty.clone(), companion.clone()], vec![companion.clone(), faulty.clone()], vec![format!("{}{}", faulty, companion)], vec![format!("{}{}", companion, faulty)]];
+        for files in sets {
+            for _ in 0..2 {
+                let (ok, codes) = project_verdict(&files).map_err(|(k, d)| fail(&k, d, files.clone()))?;
+                stats.case(true, hash_str(&format!("{}{}", name, files.join("\u{1}"))));
+                stats.class("cure-grid.set");
+                if ok || !codes.iter().any(|c| c == code) {
+                    return Err(fail("error-masked", format!("alone the file fails with {:?}; next to a valid companion that declares the name elsewhere the set gives ok={} codes {:?}", alone.1, ok, codes), files));
+                }
+            }
+        }
+        Ok(())
+    });
+    rep.add(out);
+    rep.extra.insert("cure_grid_cells".into(), json!(n));
+}
+
 pub fn run(ctx: &Ctx) -> i32 {
     let clock = Clock::start();
     let mut rep = Report::new(
@@ -361,10 +432,11 @@ pub fn run(ctx: &Ctx) -> i32 {
         ctx.tier,
         ctx.seed,
         "fault_enumeration",
-        "faulty unit F (file that does not tokenize / file with a syntax error / unit with one self-contained planted semantic fault, the faulty declaration at every rotation position of its file) among 0..4 valid companion files with disjoint names, optionally plus a companion that re-declares the faulty declaration's name (valid same kind, different kind, identical copy): ALL file orders (<= 4 files exhaustive, 24 sampled beyond). Project::semantic() on an in-memory project must fail (same-name sets: with the fault's code or P0019/P0020; 4 fresh projects each because file order inside the project is hash-seeded); `ironplcc check f..` in both argument orders and `check <dir>` must exit non-zero without printing OK (sample). Non-trivial: >= 1 companion; distinct by the ordered file texts.",
+        "faulty unit F (file that does not tokenize / file with a syntax error / unit with one self-contained planted semantic fault, the faulty declaration at every rotation position of its file) among 0..4 valid companion files with disjoint names, optionally plus a companion that re-declares the faulty declaration's name (valid same kind, different kind, identical copy): ALL file orders (<= 4 files exhaustive, 24 sampled beyond). Project::semantic() on an in-memory project must fail (same-name sets: with the fault's code or P0019/P0020; 4 fresh projects each because file order inside the project is hash-seeded); `ironplcc check f..` in both argument orders and `check <dir>` must exit non-zero without printing OK (sample). Plus the 'wrong cure' grid: faults that name something a valid companion declares elsewhere (another enumeration, another scope, another configuration) must still fail with their code in both file orders and as one file. Non-trivial: >= 1 companion; distinct by the ordered file texts.",
     );
     let gates = ctx.gates_for("C03");
     let off = gates.off_list();
+    run_cure_grid(&mut rep);
     let cases = ctx.tier.pick(15_000, 300_000);
     let cli_budget = std::sync::atomic::AtomicI64::new(ctx.tier.pick(100, 3000));
     let out = run_tapes("C03", ctx.seed, ctx.threads, cases, 900, |tape, stats, counting| {
